@@ -28,8 +28,10 @@ def run_case(case, chooser):
     n = case["n"]
     problems = []
     host = case.get("host", "127.0.0.1")
+    # data_ports may be any iterable: a list, or a one-shot generator
+    ports_arg = (p for p in list(pool)) if case.get("ports_as") == "generator" else list(pool)
     rig = Rig(chooser=chooser, n_sessions=n, tree={"f": b"abc"}, host=host,
-              server_kwargs={"data_ports": list(pool), "wait_future_timeout": 1})
+              server_kwargs={"data_ports": ports_arg, "wait_future_timeout": 1})
     try:
         w = rig.world
         chooser.active = False
@@ -78,6 +80,24 @@ def run_case(case, chooser):
             pl = ledger.pool_ports(rig.server)
             if pl is not None and sorted(pl) != sorted(pool):
                 problems.append({"kind": "pool-after-close", "pool": pl})
+            # a closed server can be started again and serves the whole pool again
+            if pool and not problems:
+                try:
+                    w.start_server(rig.server, host=host)
+                    from vf.world import Session
+                    got = []
+                    for k in range(len(pool)):
+                        s = Session(w, name=f"again{k}", host=host)
+                        s.connect()
+                        s.login()
+                        r = s.passive("PASV" if ":" not in host else "EPSV")
+                        code = r[-1][0] if r else None
+                        if code not in ("227", "229") or s.pasv_port not in pool or s.pasv_port in got:
+                            problems.append({"kind": "restarted-server-port-missing", "k": k, "code": code,
+                                             "port": s.pasv_port, "got": got})
+                        got.append(s.pasv_port)
+                except Exception as exc:
+                    problems.append({"kind": "restart-failed", "exc": repr(exc)[:200]})
             outcome = ("closed", tuple(sorted(pl or ())))
         else:
             # end every session, then the pool must be whole again
@@ -227,6 +247,13 @@ def build_items(tier):
         if name in ("pasv-then-drop", "pasv-pasv-drop", "pasv-epsv-pipelined", "pasv-then-quit", "two-sessions-race-one-port"):
             case6 = dict(case, name=name + "-ipv6", host="::1")
             items.append(("race", case6, bound, kinds_q if tier == "quick" else kinds_t, 4000 if tier == "quick" else 60000))
+    # server life cycle: close (then start again) after short histories, with the pool given as a list or as a generator
+    for ports_as in ("list", "generator"):
+        for psize in (1, 2):
+            for pre in ([], [(0, "PASV")], [(0, "PASV"), (0, "QUIT")], [(0, "EPSV"), (0, "@data"), (0, "LIST")],
+                        [(0, "PASV"), (1, "PASV")], [(0, "PASV"), (0, "@drop")]):
+                items.append(("seq", {"name": f"life-{ports_as}-p{psize}", "pool": PORTS[:psize], "n": 2,
+                                      "events": pre + [(0, "@close-server")], "ports_as": ports_as}, 0, [], None))
     # bind fault plans: every assignment of {ok, EADDRINUSE, EACCES} to the first two attempts per port
     outcomes = ["ok", errno.EADDRINUSE, errno.EACCES]
     fault_scripts = [
@@ -252,7 +279,8 @@ def run(tier, seed, t0):
         items = items[k:] + items[:k]
     parts = report.pmap(_work, items)
     part = report.merge_all(parts)
-    bounds = {"pools": [0, 1, 2, 3], "sessions": "1..3", "control_connection": ["IPv4", "IPv6 (::1)"], "sequence_depth": 3 if tier == "quick" else 5,
+    bounds = {"pools": [0, 1, 2, 3], "sessions": "1..3", "control_connection": ["IPv4", "IPv6 (::1)"],
+              "life_cycle": "close() after 6 short histories, then start() again and probe the whole pool; data_ports as list / generator", "sequence_depth": 3 if tier == "quick" else 5,
               "deviation_bound_races": 1 if tier == "quick" else 3,
               "bind_plans": "3^(2*|pool|) for |pool| in {1,2}", "cases": len(items)}
     return report.finish(
